@@ -34,6 +34,14 @@ ContentKey(kid, seed) ==
 \* WRMHEADER checksum: first 8 bytes of AES-ECB(content key, kid in GUID order)
 Checksum(kid, key) == SubSeq(Aes128Ecb(key, LeGuid(kid)), 1, 8)
 
+\* the {cfgs} format field of a licence URL names every key of the set: its id as little-endian GUID, and (for keys that are
+\* not derived from the key seed) the key itself
+C11_LicenceUrlNamesKeys(hasCfgs, allKids, allKeys, cfgKids, cfgKeys) ==
+    hasCfgs = 1 =>
+        /\ Len(cfgKids) = Len(allKids)
+        /\ \A i \in 1..Len(allKids) :
+              /\ i <= Len(cfgKids) => cfgKids[i] = LeGuid(allKids[i])
+              /\ i <= Len(cfgKeys) => (cfgKeys[i] = <<>> \/ cfgKeys[i] = allKeys[i])
 C11_GuidLE(kid, le) == le = LeGuid(kid)
 C11_ContentKey(kid, seed, key) == Len(seed) >= 30 => key = ContentKey(kid, seed)
 \* a generated PlayReady Object parses back (independent reader) to the same kid(s), licence URL, checksum
